@@ -154,6 +154,12 @@ def run_given(strategy, body: Callable[[Any], None], n: int, seed: int) -> None:
     @hyp_settings(n)
     @given(strategy)
     def t(case):
+        from vf import vtime
+
+        if vtime.SPINS[0] >= 3:
+            # three runs of this process have already been reported as busy loops that never wait (each costs its whole CPU
+            # budget): the remaining cases of this shard are skipped, not waited for
+            return
         body(case)
 
     t()
